@@ -3080,9 +3080,10 @@ impl LineBuf {
 						if let Some(mode) = self.select_mode.as_mut() {
 							mode.set_anchor(SelectAnchor::End);
 						}
-						end += 1;
+						end = (end + 1).min(self.cursor.max);
 					} else {
 						self.cursor.set(end);
+						end = self.cursor.get(); // The selection ends where the cursor could go
 						if let Some(mode) = self.select_mode.as_mut() {
 							mode.set_anchor(SelectAnchor::Start);
 						}
